@@ -210,6 +210,10 @@ class Run:
                 print(f"HARNESS-ERROR: {m[:3000]}")
             if rc == 0:
                 rc = 2
+        nerr = self.counters.get("status:harness-error", 0)
+        if rc == 0 and nerr > max(3, 0.1 * max(self.evaluations, 1)):
+            print(f"HARNESS-ERROR: {nerr} of {self.evaluations} cases ended in a harness-side error (child process died / no output)")
+            rc = 2
         if rc == 0 and len(self.nontrivial) < min_nontrivial:
             print(
                 f"HARNESS-ERROR: only {len(self.nontrivial)} distinct non-trivial cases "
